@@ -150,18 +150,37 @@ theorem step_profile (hf : c1.macroSep = c2.macroSep) (o : Op) :
     simp only [Lexer.mk.injEq] at h2 ⊢
     simp [h2]
   case litResolve back =>
-    simp only [step, eraseP_lit, eraseP_curByte]
-    by_cases hc : (L.lit.start == L.lit.stop) = true
+    simp only [step]
+    have e1 : (L.dassert c1 (L.lit.seen || L.lit.start == L.lit.stop)
+        "assertion failed: seen_escape || lit_start_idx == cur_lit_end_idx").lit = L.lit := rfl
+    have e2 : ((eraseP L).dassert c2 ((eraseP L).lit.seen || (eraseP L).lit.start == (eraseP L).lit.stop)
+        "assertion failed: seen_escape || lit_start_idx == cur_lit_end_idx").lit = L.lit := rfl
+    simp only [e1, e2]
+    by_cases hc : (!L.lit.seen) = true
     · simp only [hc, if_true]
       exact ⟨trivial, rfl⟩
     · simp only [hc]
-      have h := addStringLiteralFromSrc_profile c1 c2 L L.lit.lastEnd (some (L.curByte - back))
+      generalize hX1 : L.dassert c1 (L.lit.seen || L.lit.start == L.lit.stop)
+        "assertion failed: seen_escape || lit_start_idx == cur_lit_end_idx" = X1
+      generalize hX2 : (eraseP L).dassert c2 ((eraseP L).lit.seen || (eraseP L).lit.start == (eraseP L).lit.stop)
+        "assertion failed: seen_escape || lit_start_idx == cur_lit_end_idx" = X2
+      have hX : eraseP X1 = eraseP X2 := by rw [← hX1, ← hX2]; rfl
+      have hcb : X1.curByte = X2.curByte := by rw [← hX1, ← hX2]; rfl
+      have hl : X1.lit = X2.lit := by rw [← hX1, ← hX2]; rfl
+      have hlL : X1.lit = L.lit := by rw [← hX1]; rfl
+      have a1 := addStringLiteralFromSrc_profile c1 c2 X1 L.lit.lastEnd (some (X1.curByte - back))
+      have a2 := addStringLiteralFromSrc_profile c2 c2 X2 L.lit.lastEnd (some (X1.curByte - back))
+      rw [hX] at a1
+      have h1 : (X1.addStringLiteralFromSrc c1 L.lit.lastEnd (some (X1.curByte - back))).1
+              = (X2.addStringLiteralFromSrc c2 L.lit.lastEnd (some (X1.curByte - back))).1 := a1.1.trans a2.1.symm
+      have h2 : eraseP (X1.addStringLiteralFromSrc c1 L.lit.lastEnd (some (X1.curByte - back))).2
+              = eraseP (X2.addStringLiteralFromSrc c2 L.lit.lastEnd (some (X1.curByte - back))).2 := a1.2.trans a2.2.symm
       refine ⟨trivial, ?_⟩
-      obtain ⟨h1, h2⟩ := h
-      generalize L.addStringLiteralFromSrc c1 L.lit.lastEnd (some (L.curByte - back)) = r1 at h1 h2 ⊢
-      generalize (eraseP L).addStringLiteralFromSrc c2 L.lit.lastEnd (some (L.curByte - back)) = r2 at h1 h2 ⊢
-      obtain ⟨⟨a1, b1⟩, L1⟩ := r1
-      obtain ⟨⟨a2, b2⟩, L2⟩ := r2
+      rw [← hcb]
+      generalize X1.addStringLiteralFromSrc c1 L.lit.lastEnd (some (X1.curByte - back)) = r1 at h1 h2 ⊢
+      generalize X2.addStringLiteralFromSrc c2 L.lit.lastEnd (some (X1.curByte - back)) = r2 at h1 h2 ⊢
+      obtain ⟨⟨a1', b1⟩, L1⟩ := r1
+      obtain ⟨⟨a2', b2⟩, L2⟩ := r2
       simp only [Prod.mk.injEq] at h1
       obtain ⟨ha, hb⟩ := h1
       subst ha hb
